@@ -34,7 +34,7 @@ static void run_narrow(const char* envname, const char* args, int cnt_pairs_slot
     unsigned long long v;
     char name[64];
     if (sscanf(line, "CNT %63s %llu", name, &v) == 2) {
-      if (!strcmp(name, "pairs")) { vf_cnt(cnt_pairs_slot, v); vf_cnt(VC_EVAL, v); vf_cnt(VC_DISTINCT, v); vf_cnt(VC_TRACES, v); }
+      if (!strcmp(name, "pairs")) { vf_sample("%s %s: %llu operand pairs judged", envname, args, v); vf_cnt(cnt_pairs_slot, v); vf_cnt(VC_EVAL, v); vf_cnt(VC_DISTINCT, v); vf_cnt(VC_TRACES, v); }
       else if (!strcmp(name, "conservative_refusals")) vf_cnt(K_CONSERVATIVE, v);
       else if (!strcmp(name, "growth_steps")) { vf_cnt(K_GROWTH, v); vf_cnt(VC_EVAL, v); vf_cnt(VC_TRACES, v); }
       else if (!strcmp(name, "sersize_cases")) { vf_cnt(K_SERSIZE, v); vf_cnt(VC_EVAL, v); vf_cnt(VC_TRACES, v); }
